@@ -65,7 +65,7 @@ pub fn decode_c12(data: &[u8]) -> c12::Case {
             _ => c12::Rec::Key { db, key, remove: false, dt },
         });
     }
-    c12::Case { recs, extra_since: vec![] }
+    c12::Case { recs, extra_since: vec![], far_future: false }
 }
 
 /// entry points of the fuzz targets: a failure with an unlisted signature aborts (libFuzzer saves the input)
